@@ -65,6 +65,8 @@ def generate(rng, index, tier):
                 name = pnames[(index + rng.randrange(len(pnames))) % len(pnames)]
                 want = cat['path_names'][name]
                 nl = rng.pick([want, want, want, 0, 1, 2, 3, 6 if name == 'BSC_posix_spawn' else want])
+                if index % 401 == 17:
+                    nl = rng.pick([20, 70, 300])       # a call that resolved very many paths (deep symlink chains, big spawn file actions)
                 lookups = []
                 for _k in range(nl):
                     lk = worlds.op_lookup(rng)
@@ -100,7 +102,7 @@ def generate(rng, index, tier):
     per = kernel.expand_threads(threads, ids)
     shape = rng.pick(['sensitive', 'sensitive', 'uniform', 'rr1', 'serial'])
     sched = draw_sensitive(rng, per, tool.codes()) if shape == 'sensitive' else kernel.draw_schedule(rng, per, shape)
-    scn = {'threads': threads, 'schedule': sched, 'tsmode': worlds.draw_tsmode(rng)}
+    scn = {'threads': threads, 'schedule': sched, 'tsmode': worlds.draw_tsmode(rng), 'earlier_other': rng.chance(0.15)}
     if rng.chance(0.1):
         scn['table'] = {'remap': {'VFS_LOOKUP': 0x03f00000 | (rng.randrange(1, 1 << 10) << 2)}}
     return scn
@@ -149,6 +151,11 @@ def execute(scn):
     events = worlds.kevents_of(stream)
     origin = {id(e): r['o'] for e, r in zip(events, stream)}
     pos_of = {r['o']: i for i, r in enumerate(stream)}
+    if scn.get('earlier_other'):
+        from .common import pollute_other_objects
+        pollute_other_objects(table, stream)
+        bump('fault:residue')
+        bump('earlier_other_objects')
     tp, pn = {}, {}
     parser = tool.tp_mod.TracesParser(table, tp, pn)
     viols = []
